@@ -5,21 +5,25 @@ from .wrap import CanCustomize
 
 class BoundCallable(CanCustomize, object):
     def __init__(self, executor, fn):
-        self.__executor = executor
-        self.__fn = fn
-
-        # Let with_* chains applied to the bound callable inherit
-        # the name of the executor, as chains on the executor itself do.
-        for name_attr in ("_name", "_CustomizableThreadPoolExecutor__name"):
-            if hasattr(executor, name_attr):
-                self._name = getattr(executor, name_attr)
-                break
-
+        # update_wrapper copies fn.__dict__ onto self; do it before setting
+        # our own attributes, so that a callable object carrying attributes
+        # of the same names (e.g. another BoundCallable) can't replace them.
         try:
             update_wrapper(self, fn)
         except AttributeError:
             # Update wrapper if we can, but not fatal if we can't
             pass
+
+        self.__executor = executor
+        self.__fn = fn
+
+        # Let with_* chains applied to the bound callable inherit
+        # the name of the executor, as chains on the executor itself do.
+        self.__dict__.pop("_name", None)
+        for name_attr in ("_name", "_CustomizableThreadPoolExecutor__name"):
+            if hasattr(executor, name_attr):
+                self._name = getattr(executor, name_attr)
+                break
 
     def __call__(self, *args, **kwargs):
         return self.__executor.submit(self.__fn, *args, **kwargs)
